@@ -1,5 +1,4 @@
-import PbVerif.Lemmas.JsonTextLoopT
-import PbVerif.Lemmas.JsonTextDepth
+import PbVerif.Lemmas.JsonTextTotalT
 /-
 C26 — JSON and text decoders are total and enforce field uniqueness.
 
@@ -451,5 +450,121 @@ theorem fromText_rejects_oneof (fs : TFields) (l1 l2 l3 : List (TName × Bool ×
     rw [show (b.1, b.2.1, b.2.2) = b from rfl] at this
     rw [this] at h2
     cases h2
+
+/-! ## (4) the recursion limit -/
+
+/-- **`depth_limit` (JSON)**: an accepted document is nested at most `RecursionLimit` deep — message objects
+through known fields (lists and maps are free, as coded) *and* the containers of discarded unknown values. -/
+theorem depth_limit_json (v : JV) (m : Msg) (h : fromJSON C D X mi limit v = .ok m) :
+    (jdepth D X mi v : Int) ≤ limit := dMsg_depth C D X v mi limit m h
+
+/-- contrapositive form: deeper than the limit ⇒ rejected -/
+theorem depth_limit_json_rejects (v : JV) (h : (jdepth D X mi v : Int) > limit) (m : Msg) :
+    fromJSON C D X mi limit v ≠ .ok m := fun hm => by
+  have := depth_limit_json C D X mi limit v m hm
+  omega
+
+/-- **the JSON skip path honours the limit**, exactly: `skipJSONValue` (entered with the limit that is left
+after the enclosing message) fails iff the skipped value nests more containers than that, and then with the
+recursion-depth error -/
+theorem skip_json_honours_limit (v : JV) :
+    skipJ limit 0 v = .error .depth ↔ cdepth v ≠ 0 ∧ (cdepth v : Int) > limit := by
+  have h := skipJ_ok_iff limit v 0
+  constructor
+  · intro he
+    have hn : ¬ (cdepth v = 0 ∨ ((0 + cdepth v : Nat) : Int) ≤ limit) := fun hc => by
+      have := h.mpr hc
+      rw [he] at this
+      cases this
+    omega
+  · intro hd
+    cases hs : skipJ limit 0 v with
+    | ok u =>
+      have := h.mp hs
+      omega
+    | error e => rw [skipJ_err limit v 0 e hs]
+
+example : skipJ 1 0 (.arr (.cons (.arr .nil) .nil)) = .error .depth := rfl
+
+/-- **`depth_limit` (text), partial**: an accepted document is nested at most `RecursionLimit` deep *through
+known fields* (one level per message, one more per map field occurrence, lists free).
+The full statement — counting the values skipped for unknown or reserved names as well — is FALSE of the code
+as it is (`text_skip_ignores_limit` below, DESIGN finding 10). -/
+theorem depth_limit_text_partial (fs : TFields) (m : Msg) (h : fromText T D X mi limit fs = .ok m) :
+    (tdepthV false D X mi (.msg fs) : Int) ≤ limit :=
+  tdMsgV_depth false T D X (fun h => nomatch h) (.msg fs) mi limit m h
+
+/-- a chain of `n` nested messages under the unknown name `a`: `a{a{…}}` -/
+def nest : Nat → TV
+  | 0 => .msg .nil
+  | n + 1 => .msg (.cons (.ident (ascii ['a'])) false (nest n) .nil)
+
+theorem bdepth_nest : ∀ n, bdepth (nest n) = n + 1
+  | 0 => by simp [nest, bdepth, bdepthFields]
+  | n + 1 => by simp [nest, bdepth, bdepthFields, bdepth_nest n]; omega
+
+/-- the one-message schema without fields -/
+def emptySchema : SchemaX := { msgs := [{ fields := [] }] }
+
+/-- **finding 10 — the negation of the full `depth_limit` for the text skip path.**
+`prototext.UnmarshalOptions{DiscardUnknown: true, RecursionLimit: 1}` accepts `a{a{…}}` nested ANY number
+`n` of levels deep: `skipValue`/`skipMessageValue` never look at the limit. -/
+theorem text_skip_ignores_limit (n : Nat) :
+    fromText T { discard := true } emptySchema 0 1 (.cons (.ident (ascii ['a'])) false (nest n) .nil) = .ok Msg.empty ∧
+    (tdepthV true { discard := true } emptySchema 0
+      (.msg (.cons (.ident (ascii ['a'])) false (nest n) .nil)) : Int) > 1 := by
+  constructor
+  · simp [fromText, tdMsgV, tdFields, tdHead, resolveText, emptySchema, SchemaX.msg]
+  · simp [tdepthV, tdepthFields, resolveText, emptySchema, SchemaX.msg, skippedDepth, bdepth_nest]
+    omega
+
+/-- **`depth_limit` (text) after the repair** (fixes/prototext-skip-depth.diff; model: `DOpts.skipLimited`):
+the full statement holds — skipped values count. -/
+theorem depth_limit_text_fixed (hfix : D.skipLimited = true) (fs : TFields) (m : Msg)
+    (h : fromText T D X mi limit fs = .ok m) : (tdepthV true D X mi (.msg fs) : Int) ≤ limit :=
+  tdMsgV_depth true T D X (fun _ => hfix) (.msg fs) mi limit m h
+
+/-- and the witness of finding 10 is then rejected with the recursion-depth error -/
+theorem text_skip_fixed_rejects (n : Nat) :
+    fromText T { discard := true, skipLimited := true } emptySchema 0 1
+      (.cons (.ident (ascii ['a'])) false (nest (n + 1)) .nil) = .error .depth := by
+  simp [fromText, tdMsgV, tdFields, tdHead, resolveText, emptySchema, SchemaX.msg, nest, skipTFix]
+
+/-! ## (5) totality
+
+All model functions are total Lean functions (structural recursion on the document tree; no fuel).
+What can go wrong in the Go code at this level, and where the model has it:
+
+* `name[1 : len(name)-1]` (protojson, extension names): guarded by `HasPrefix("[") && HasSuffix("]")`, which
+  implies `len(name) ≥ 2` — `bracket_slice_in_bounds`.
+* `panic("unmarshalScalar: invalid scalar kind")`, `panic("invalid kind for map key")`,
+  prototext `panic("invalid scalar kind")`: the `Err.panic` results of `dScalar`, `dKey`, `tdTok`;
+  `no_panic_json` / `no_panic_text`: never returned, for all documents, given that map keys have key kinds.
+* `Option`/`getD` branches of the model that stand for "cannot happen with a descriptor": `SchemaX.msg` on an
+  index outside the schema (an empty message: every name is unknown), `headD` of an empty name list (the empty
+  name), a map entry descriptor without fields 1 and 2 (`Err.delegated`); the harness checks on every corpus
+  schema that they do not occur (verb `namesok`, `MapKeysOK` by construction of the flattening).
+* Token accessors that panic on the wrong token kind (`tok.Name()`, `tok.Bool()`, `NameKind()`): the Go code tests
+  `Kind()` first in every case; the model's trees are typed by constructor, the question does not arise here.
+  Index expressions of the tokenizers themselves are below this model (engines jsonlex, textstr).
+-/
+
+theorem bracket_slice_in_bounds (s : Str) (h : isBracketed s = true) : 2 ≤ s.length := isBracketed_length s h
+
+theorem no_panic_json (hK : MapKeysOK X) (v : JV) : fromJSON C D X mi limit v ≠ .error .panic :=
+  dMsg_np C D X hK v mi limit
+
+theorem no_panic_text (hK : MapKeysOK X) (fs : TFields) : fromText T D X mi limit fs ≠ .error .panic :=
+  tdMsgV_np T D X hK (.msg fs) mi limit
+
+example : MapKeysOK emptySchema := by
+  intro i fx hmem
+  have : (emptySchema.msg i).fields = [] := by
+    unfold emptySchema SchemaX.msg
+    cases i with
+    | zero => rfl
+    | succ n => cases n <;> rfl
+  rw [this] at hmem
+  cases hmem
 
 end C26
